@@ -754,7 +754,7 @@ struct Harness : public AbstractGatewayMessageReceiver
          int32 claimed = -1;
          if ((m()->FindInt32("from", claimed).IsOK())&&(claimed != src)) {Violate("wrong_source", "Message #" + I(it->second) + " of sender " + I(claimed) + " was delivered as coming from source " + I(src));}
          if (u.sent[src] == 0) {Violate("wrong_source", "Message #" + I(it->second) + " was delivered as coming from source " + I(src) + ", which never sent it");}
-         if (S[src].excluded) {Violate("excluded_source_delivered", "source " + I(src) + " tags its packets with the receiver's own source-exclusion id " + U(rxsex) + " but Message #" + I(it->second) + " from it was delivered");}
+         if (S[src].excluded) st.inc("p.excluded_source_delivered");   // (counted, not judged: source exclusion is a feature of the gateway, not part of "never delivers a Message that was not sent")
          u.got[src]++;
          if (u.got[src] > u.sent[src])
          {
